@@ -326,6 +326,7 @@ fn c05_shard(ctx: &Ctx, out: &mut ShardOut) {
     }
     super::concchecks::C05T.run(ctx, &pool, 24, ctx.share(ctx.by_tier(160, 4_000)) as u32, &b, out);
     super::concchecks::C05H.run(ctx, &pool, 25, ctx.share(ctx.by_tier(96, 2_000)) as u32, &super::concchecks::helpers_budget(ctx.tier, ctx.shard_seed(8)), out);
+    super::concchecks::C05F.run(ctx, &pool, 31, ctx.share(ctx.by_tier(160, 3_000)) as u32, &b, out);
     drop(pool);
     super::concchecks::C05W.run(ctx, &crate::sched::Pool::with_workers(super::concchecks::CROWD_WORKERS), 30, ctx.share(ctx.by_tier(128, 2_000)) as u32, &super::concchecks::crowd_budget(ctx.tier, ctx.shard_seed(9)), out);
 }
@@ -334,6 +335,7 @@ fn c05_replay(sub: &str, case: &Value) -> Result<(), CaseFail> {
     match sub {
         "conc" => super::concchecks::C05C.replay(&crate::sched::Pool::new(), case, &super::concchecks::budget_for(Tier::Thorough, 1)),
         "conc-retain" | "conc-drain" | "conc-perkey" | "conc-compute" => super::concchecks::C05_EXTRA.iter().find(|c| c.sub == sub).unwrap().replay(&crate::sched::Pool::new(), case, &super::concchecks::budget_for(Tier::Thorough, 1)),
+        "conc-first" => super::concchecks::C05F.replay(&crate::sched::Pool::new(), case, &super::concchecks::budget_for(Tier::Thorough, 1)),
         "conc-crowd" => super::concchecks::C05W.replay(&crate::sched::Pool::with_workers(super::concchecks::CROWD_WORKERS), case, &super::concchecks::crowd_budget(Tier::Thorough, 1)),
         "conc-helpers" => super::concchecks::C05H.replay(&crate::sched::Pool::new(), case, &super::concchecks::helpers_budget(Tier::Thorough, 1)),
         "conc-treemove" => super::concchecks::C05T.replay(&crate::sched::Pool::new(), case, &super::concchecks::budget_for(Tier::Thorough, 1)),
@@ -710,6 +712,15 @@ fn c14_shard(ctx: &Ctx, out: &mut ShardOut) {
         let s = run_map_case(c, C14_OR).map_err(|f| to_casefail("C14", f))?;
         Ok(CaseInfo { nontrivial: s.treeify > 0 || s.resizes > 0, classes: vec![("colliding_cases_with_tree_bins", (s.treeify > 0) as u64), ("colliding_cases_with_resizes", (s.resizes > 0) as u64)], evaluations: s.steps.max(1), sub_hashes: vec![] })
     });
+    // the growth rule after concurrent histories (first operations racing on an unallocated map,
+    // resizes with one and with several helpers)
+    {
+        use super::concchecks as cc;
+        let pool = crate::sched::Pool::new();
+        cc::C14F.run(ctx, &pool, 61, ctx.share(ctx.by_tier(280, 6_000)) as u32, &cc::budget_for(ctx.tier, ctx.shard_seed(13)), out);
+        cc::C14Z.run(ctx, &pool, 62, ctx.share(ctx.by_tier(120, 3_000)) as u32, &cc::budget_for(ctx.tier, ctx.shard_seed(14)), out);
+        cc::C14H.run(ctx, &pool, 63, ctx.share(ctx.by_tier(64, 1_500)) as u32, &cc::helpers_budget(ctx.tier, ctx.shard_seed(15)), out);
+    }
     // capacity sweep: an enumeration, sharded by residue class
     let max_c: u32 = ctx.by_tier(6000, 20_000) as u32;
     let mut cases: Vec<SweepCase> = (0..=max_c).map(|c| SweepCase { kind: 0, c, pre: 0 }).collect();
@@ -768,6 +779,12 @@ fn c14_replay(sub: &str, case: &Value) -> Result<(), CaseFail> {
         let c: SweepCase = serde_json::from_value(case.clone()).map_err(|e| CaseFail { prop: "C14".into(), msg: format!("bad replay file: {}", e) })?;
         return run_sweep_case(&c).map_err(|m| CaseFail { prop: "C14".into(), msg: format!("[C14] {}", m) });
     }
+    match sub {
+        "cap-first" => return super::concchecks::C14F.replay(&crate::sched::Pool::new(), case, &super::concchecks::budget_for(Tier::Thorough, 1)),
+        "cap-resize" => return super::concchecks::C14Z.replay(&crate::sched::Pool::new(), case, &super::concchecks::budget_for(Tier::Thorough, 1)),
+        "cap-helpers" => return super::concchecks::C14H.replay(&crate::sched::Pool::new(), case, &super::concchecks::helpers_budget(Tier::Thorough, 1)),
+        _ => {}
+    }
     replay_seq("C14", sub, case, C14_OR)
 }
 
@@ -815,7 +832,7 @@ pub fn defs() -> Vec<PropDef> {
     PropDef {
         id: "C14",
         level: "exploration",
-        rule: "(a) enumeration: with_capacity(c) then c identity-hashed consecutive keys must not change the table length, for every c in the swept range and around powers of two; reserve(a) likewise on six fill levels; capacity 0 allocates nothing; (b) generated sequences over identity-hashed dense keys: after every operation the table length must be a power of two <= 2^30, never shrink, and change only by a power-of-two factor and only through reserve/extend or an insert of a new key that brought the count to >= 0.75 n or met a bin of >= 8 nodes in a table < 64 - never through remove, remove_entry, a removing compute_if_present, retain, retain_force, clear or replacing insert; evaluations = steps + sweep cases; non-trivial = a removal executed with the count within 2 of the threshold (sequences) / every sweep case; distinct = hash of the case",
+        rule: "(a) enumeration: with_capacity(c) then c identity-hashed consecutive keys must not change the table length, for every c in the swept range and around powers of two; reserve(a) likewise on six fill levels; capacity 0 allocates nothing; (b) generated sequences over identity-hashed dense keys: after every operation the table length must be a power of two <= 2^30, never shrink, and change only by a power-of-two factor and only through reserve/extend or an insert of a new key that brought the count to >= 0.75 n or met a bin of >= 8 nodes in a table < 64 - never through remove, remove_entry, a removing compute_if_present, retain, retain_force, clear or replacing insert; evaluations = steps + sweep cases; non-trivial = a removal executed with the count within 2 of the threshold (sequences) / every sweep case; distinct = hash of the case; (c) scheduled sub-checks cap-first / cap-resize / cap-helpers: after every explored schedule of programs whose threads race the first operations on an unallocated map (lazy initialisation against reserve and inserts) or resize it with one or several helpers, the idle size_ctl must be three quarters of the table length and fresh keys inserted from the main thread must not grow the table before the count reaches that threshold (non-trivial there = the schedule allocated or resized the table)",
         assumptions: &["capacities above 2^21 are not exercised (memory)"],
         run_shard: c14_shard,
         replay: c14_replay,
